@@ -336,7 +336,7 @@ func streamErrors(o *Out, r *rand.Rand, n int, thorough bool) {
 		if res.err != nil {
 			gotErr = res.err.Error()
 		}
-		if res.hung || res.panicked || strings.Join(res.trace, " ") != strings.Join(c.want, " ") || (c.wantErr == "") != (gotErr == "") {
+		if res.hung || res.panicked || strings.Join(res.trace, " ") != strings.Join(c.want, " ") || (c.wantErr == "") != (res.err == nil) {
 			o.Fail(Failure{Oracle: "error-paths", Key: "error-path:" + firstLine(c.src), Input: c.src,
 				Detail: fmt.Sprintf("expected trace %v and error %q; got trace %v and error %q (panicked=%v)", c.want, c.wantErr, res.trace, gotErr, res.panicked)})
 		}
